@@ -261,7 +261,7 @@ impl World {
         if rng.chance(1, 3) {
             proofs.push(b.proof());
         }
-        let choice = rng.below(26);
+        let choice = rng.below(28);
         let (label, manifest): (&'static str, TransactionManifestV1) = match choice {
             0 | 1 => {
                 let f = rng.pick(&self.fungibles).clone();
@@ -444,6 +444,21 @@ impl World {
                         .try_deposit_entire_worktop_or_abort(b.account, None);
                     ("overlapping_nf_proofs", m.build())
                 }
+            }
+            26 | 27 => {
+                // fee locks taken late: the XRD vault they lock from has already been changed by this
+                // transaction (withdrawn from / deposited into), then usually a failure
+                let amt = amount(rng, 18, Some(self.balance(a.account, XRD)));
+                let target = if rng.bool() { a.account } else { b.account };
+                if target == b.account {
+                    proofs.push(b.proof());
+                }
+                let mut m = mb.withdraw_from_account(a.account, XRD, amt).try_deposit_entire_worktop_or_abort(b.account, None);
+                m = if rng.bool() { m.lock_contingent_fee(target, dec!(2)) } else { m.lock_fee(target, dec!(2)) };
+                if rng.chance(2, 3) {
+                    m = m.assert_worktop_contains(XRD, Decimal::MAX);
+                }
+                ("late_fee_lock", m.build())
             }
             20 => {
                 let div = *rng.pick(&[0u8, 1, 6, 17, 18]);
